@@ -9,7 +9,7 @@ from hypothesis import strategies as st
 
 from ..core import SubCheck, Violation, cut, require
 from ..oracles import atmosphere as oatm
-from ..strategies import CHUNK_SIZES, bfloat, block_edge_sizes, same_values, log_uniform, near, rel_near, ulp_step
+from ..strategies import CHUNK_SIZES, bfloat, block_edge_sizes, harvested_edge_sizes, same_values, log_uniform, near, rel_near, ulp_step
 
 PROPERTY_ID = "C19"
 LEVEL = "exploration"
@@ -243,7 +243,7 @@ def _big_cases(tier):
 
     seed = int(os.environ.get("VERIF_SEED", "1") or "1")
     rng = np.random.default_rng(seed)  # enumeration parameters only (sizes are fixed); part of the deterministic case list
-    plan = [(0, n) for n in [3, 1000] + block_edge_sizes("quick")]
+    plan = [(0, n) for n in sorted(set([3, 1000] + block_edge_sizes("quick")) | set(harvested_edge_sizes(["simulation/atmosphere/pressure.py", "simulation/eas_optical/atmospheric_models.py"], cap=2**24 + 1)))]
     if tier != "quick":
         plan += [(rep, n) for rep in range(1, 6) for n in [3, 1000] + CHUNK_SIZES] + [(6, n) for n in block_edge_sizes(tier, cap=2**23 + 4097)]
     for rep, n in plan:
